@@ -2000,11 +2000,18 @@ pub(crate) mod convert {
                     read::Operation::Call {
                         offset: read::DieReference::DebugInfoRef(ref_offset),
                         ..
+                    }
+                    | read::Operation::VariableValue { offset: ref_offset }
+                    | read::Operation::ImplicitPointer {
+                        value: ref_offset, ..
                     } => {
                         let offset = ref_offset
                             .to_unit_section_offset(&self.read_unit)
                             .ok_or(ConvertError::InvalidDebugInfoRef)?;
                         deps.push(offset);
+                    }
+                    read::Operation::EntryValue { expression } => {
+                        self.add_expression_refs(deps, read::Expression(expression))?;
                     }
                     _ => {}
                 }
